@@ -86,6 +86,18 @@ Check C10_rows : forall g a b st sats sigs st', t_encode_frag (FMsm g a b) st (V
    StronglySorted (fun x y => lexle (sig_key (sig_table g) x) (sig_key (sig_table g) y)) (sort_by (sig_row_cmp (sig_table g)) sigs) /\
    forall sigs', Permutation sigs sigs' -> sort_by (sig_row_cmp (sig_table g)) sigs' = sort_by (sig_row_cmp (sig_table g)) sigs).
 
+(** the decoder's reading of the masks: identifiers of the set bits in strictly ascending order (satellites from
+    the 64-bit mask, signals from the 32-bit mask), and the cells in row-major order -- cell j (counting from
+    the most significant bit of the cell mask) is (satellite j / |G|, signal j mod |G|) *)
+Theorem C10_decode_ids : forall w m, 0 <= w ->
+  (forall s, In s (mask_to_id_vec w m) <-> (1 <= s <= w /\ Z.testbit m (w - s) = true)) /\
+  StronglySorted Z.lt (mask_to_id_vec w m).
+Proof. exact mask_to_id_vec_spec. Qed.
+Theorem C10_decode_cells : forall sat_vec sig_vec ccl cm cv, cells_loop (Z.to_nat ccl) 0 ccl cm sat_vec sig_vec = Ok cv ->
+  cv = map (fun j => (znth sat_vec (j / zlen sig_vec), znth sig_vec (j mod zlen sig_vec)))
+           (filter (fun j => Z.testbit cm (ccl - 1 - j)) (map (fun k => 0 + Z.of_nat k) (seq 0 (Z.to_nat ccl)))).
+Proof. intros sat_vec sig_vec ccl cm cv. apply cells_loop_spec. Qed.
+
 (** non-vacuity: GPS satellites {5, 3} with signals 1C on 5 and 2W, 1C on 3, listed out of order:
     satellite mask 00101000.., signal mask bits 2 (1C) and 10 (2W), cell mask 11|10 (satellite 3: both, satellite 5: 1C) *)
 Example C10_masks_example :
@@ -127,3 +139,5 @@ Print Assumptions C10_sat_mask_bits.
 Print Assumptions C10_mask_offsets.
 Print Assumptions C10_masks.
 Print Assumptions C10_rows.
+Print Assumptions C10_decode_ids.
+Print Assumptions C10_decode_cells.
